@@ -82,3 +82,81 @@ def run_c04(tier):
                      extra_assumptions=["history = assemble once, compute, compute again with re-valued inputs of the same "
                                         "structure (one re-run; compute reads no state of a previous compute: checked by "
                                         "comparing the second result with the specification of the new values)"])
+
+
+def _c16_tasks(tasks):
+    """Keep requests with at least one index meeting the hypothesis; that index class becomes fully
+    symbolic (0 .. 2^31-1), the others keep their enumerated sizes."""
+    out = []
+    seen = set()
+    cache = {}
+    for t in tasks:
+        key = (t["assignment"], tuple(sorted(t["formats"].items())))
+        if key not in cache:
+            comp = compile_request(Request.make(t["assignment"], t["formats"]), kinds=kprog.KINDS3)
+            cache[key] = [] if comp.refusal else kprog.eligible_classes(comp)
+        el = cache[key]
+        if not el:
+            continue
+        dv = {k: v for k, v in t["dimvec"].items() if k not in el}
+        k2 = (key, tuple(sorted(dv.items())))
+        if k2 in seen:
+            continue
+        seen.add(k2)
+        out.append({**t, "dimvec": dv, "symbolic_classes": el})
+    return out
+
+
+def confirm_c16(rec, families):
+    """Replay on the concrete IR machine with its loop/statement counters at D and at a larger D."""
+    req = Request.make(rec["request"]["assignment"], rec["request"]["formats"])
+    comp = compile_request(req, kinds=kprog.KINDS3)
+    dec = rec["violation"].get("decoded")
+    out = {"confirmed": False, "where": [], "runs": []}
+    if dec is None:
+        return out
+    from ..explore import index_classes, tensor_index_lists
+
+    detail = rec["violation"].get("detail") or {}
+    classes = rec.get("symbolic_classes") or ([detail.get("class")] if detail.get("class") else [])
+    cls = index_classes(comp.assignment)
+    lists = tensor_index_lists(comp.assignment)
+
+    def scaled(c, newd):
+        import copy
+
+        d2 = copy.deepcopy(dec)
+        d2["dimvals"][c] = newd
+        for name, t in d2["inputs"].items():
+            t["dimensions"] = [newd if cls[i] == c else old for i, old in zip(lists[name], t["dimensions"])]
+        d2["output_dimensions"] = [newd if cls[i] == c else old
+                                   for i, old in zip(lists[comp.target], d2["output_dimensions"])]
+        return d2
+
+    for c in classes:
+        d0 = dec["dimvals"][c]
+        base = replay.concrete_ir_run(comp, ["evaluate"], dec, max_loop_iter=10**6)
+        d_big = detail.get("D2") if detail.get("class") == c and detail.get("D2") else None
+        if d_big is None or d_big > d0 + 20000:
+            d_big = min(max(d0, 1) * 100, d0 + 20000)
+        big = replay.concrete_ir_run(comp, ["evaluate"], scaled(c, d_big), max_loop_iter=10**6)
+        run = {"class": c, "D": d0, "D2": d_big,
+               "iterations": [base.get("loop_iterations"), big.get("loop_iterations")],
+               "statements": [base.get("statements"), big.get("statements")],
+               "violations": [base["violation"], big["violation"]]}
+        out["runs"].append(run)
+        if base["violation"] is None and big["violation"] is None and (
+                run["iterations"][0] != run["iterations"][1] or run["statements"][0] != run["statements"][1]):
+            out["confirmed"] = True
+            out["where"].append(f"ir-machine counters differ for {c}: D={d0} vs D={d_big}")
+    return out
+
+
+def run_c16(tier):
+    variants = [{"mode": "c16", "program": "evaluate"}]
+    return keval.run("C16", tier, families=["work"], worker=kprog.run_task, variants=variants,
+                     confirm_fn=confirm_c16, validate=False, functions=FUNCS, task_filter=_c16_tasks,
+                     extra_assumptions=["the sparse-only dimension is a free integer in [0, 2^31-1]; if every path condition is "
+                                        "monotone in it, the same stored entries follow the same path - hence execute the same loop "
+                                        "iterations and statements - under any larger dimension",
+                                        "a loop bounded by such a dimension cannot complete a path and is reported as unwinding violation"])
